@@ -1,4 +1,189 @@
-import JV.Model.JsonPath
-namespace JV.Props.C12
-theorem placeholder : True := trivial
-end JV.Props.C12
+/-
+  C12 — JSONPath queries select exactly the addressed nodes.
+
+  Model: `JV.Model.JsonPath` (selector classes of jsonpath_selector.hpp, option handling of path_expression::evaluate,
+  json_replace of json_query.hpp). Tie: generated (expression, document, options) triples evaluated by the real library and by
+  the model, node list against node list; all result forms cross-checked in the harness.
+
+  Theorems, for every document with unique object keys and every expression of the modelled grammar:
+    * `path_addresses_value` — each returned normalized path, resolved against the document, yields exactly the value
+      returned with it;
+    * `slice_is_rfc9535`, `slice_in_bounds`, `slice_ascending`, `slice_descending` — the start/stop/step arithmetic selects
+      exactly the indices of the RFC 9535 (Python) slice, each inside the array, none twice, in step order — for all
+      integers, including negative and oversized bounds;
+    * `sort_is_sorted_permutation`, `nodups_*`, `sort_nodups_*` — the options are the sorted / de-duplicated (first
+      occurrence) versions of the plain result;
+    * `replace_touches_nothing_else`, `replace_assigns_selected` — json_replace leaves every node outside the selected
+      subtrees as it was and every outermost selected node holds the new value.
+-/
+import JV.Proofs.JsonPath
+import JV.Proofs.JsonPathSlice
+import JV.Proofs.JsonPathOpts
+import JV.Proofs.JsonPathReplace
+namespace JV
+namespace Props
+namespace C12
+open Model.JsonPath
+
+/-- **Paths address values.** -/
+theorem path_addresses_value (root : JVal) (hu : UK root) (segs : List Seg) :
+    ∀ nd ∈ query root segs, resolve root nd.1 = some nd.2 := by
+  intro nd h
+  exact (evalSegs_good root segs ([], root) ⟨rfl, hu⟩ nd h).1
+
+/-- … under every option set: the options only reorder and drop nodes. -/
+theorem mem_applyOpts (o : Opts) (l : List Node) : ∀ nd ∈ applyOpts o l, nd ∈ l := by
+  intro nd h
+  unfold applyOpts at h
+  have hs : ∀ x, x ∈ sortNodes l → x ∈ l := fun x hx => (sortNodes_perm l).subset hx
+  have hu : ∀ x, x ∈ uniqAdj (sortNodes l) → x ∈ l := fun x hx => hs x ((uniqAdj_sublist _).subset hx)
+  split at h
+  · rw [List.mem_reverse] at h
+    split at h
+    · exact hu nd h
+    · exact hs nd h
+  · split at h
+    · split at h
+      · exact hu nd h
+      · exact hs nd h
+    · split at h
+      · exact (nodups_sublist l []).subset h
+      · exact h
+
+theorem path_addresses_value_opts (root : JVal) (hu : UK root) (segs : List Seg) (o : Opts) :
+    ∀ nd ∈ applyOpts o (query root segs), resolve root nd.1 = some nd.2 :=
+  fun nd h => path_addresses_value root hu segs nd (mem_applyOpts o _ nd h)
+
+/-! ### slices -/
+
+theorem slice_is_rfc9535 (s : Slice) (n x : Nat) :
+    x ∈ sliceIdx s n ↔ Spec.Rfc9535.Selected s.start s.stop s.step n (x : Int) := sliceIdx_spec s n x
+
+theorem slice_in_bounds (s : Slice) (n : Nat) : ∀ x ∈ sliceIdx s n, x < n := sliceIdx_lt s n
+
+theorem slice_ascending (s : Slice) (n : Nat) (h : s.step > 0) : (sliceIdx s n).Pairwise (· < ·) := sliceIdx_ascending s n h
+
+theorem slice_descending (s : Slice) (n : Nat) (h : s.step < 0) : (sliceIdx s n).Pairwise (· > ·) := sliceIdx_descending s n h
+
+/-! ### result options -/
+
+theorem sort_is_sorted_permutation (l : List Node) :
+    (applyOpts { nodups := false, sort := true, desc := false } l).Perm l ∧
+      (applyOpts { nodups := false, sort := true, desc := false } l).Pairwise (fun a b => pathLe a.1 b.1 = true) := by
+  simp only [applyOpts, Bool.false_eq_true, if_false, if_true]
+  exact ⟨sortNodes_perm l, sortNodes_sorted l⟩
+
+theorem sort_descending_is_reverse_sorted (l : List Node) :
+    (applyOpts { nodups := false, sort := false, desc := true } l).Perm l ∧
+      (applyOpts { nodups := false, sort := false, desc := true } l).Pairwise (fun a b => pathLe b.1 a.1 = true) := by
+  simp only [applyOpts, Bool.false_eq_true, if_false, if_true]
+  exact ⟨(List.reverse_perm _).trans (sortNodes_perm l), List.pairwise_reverse.mpr (sortNodes_sorted l)⟩
+
+theorem nodups_is_first_occurrences (l : List Node) :
+    let r := applyOpts { nodups := true, sort := false, desc := false } l
+    r.Sublist l ∧ (r.map (·.1)).Nodup ∧ (∀ p ∈ l.map (·.1), p ∈ r.map (·.1)) ∧
+      (∀ nd ∈ r, ∃ l1 l2, l = l1 ++ nd :: l2 ∧ nd.1 ∉ l1.map (·.1)) := by
+  simp only [applyOpts, Bool.false_eq_true, if_false, if_true]
+  exact ⟨nodups_sublist l [], nodups_paths_nodup l [], fun p hp => nodups_keeps_paths l [] p hp (by simp),
+    fun nd h => nodups_first l [] nd h⟩
+
+theorem sort_nodups_is_sorted_set (l : List Node) :
+    let r := applyOpts { nodups := true, sort := true, desc := false } l
+    r.Pairwise (fun a b => pathLe a.1 b.1 = true) ∧ (r.map (·.1)).Nodup ∧ (∀ p ∈ l.map (·.1), p ∈ r.map (·.1)) ∧ (∀ nd ∈ r, nd ∈ l) := by
+  simp only [applyOpts, Bool.false_eq_true, if_false, if_true]
+  refine ⟨(sortNodes_sorted l).sublist (uniqAdj_sublist _), uniqAdj_nodup _ (sortNodes_sorted l), ?_, ?_⟩
+  · intro p hp
+    apply uniqAdj_keeps_paths
+    obtain ⟨nd, hnd, e⟩ := List.mem_map.mp hp
+    exact List.mem_map.mpr ⟨nd, (sortNodes_perm l).mem_iff.mpr hnd, e⟩
+  · intro nd h
+    exact (sortNodes_perm l).subset ((uniqAdj_sublist _).subset h)
+
+/-! ### json_replace -/
+
+/-- the paths json_replace assigns to, in assignment order -/
+def replacePaths (root : JVal) (segs : List Seg) : List Path :=
+  (applyOpts { nodups := true, sort := false, desc := true } (query root segs)).map (·.1)
+
+theorem replaceAll_eq (root : JVal) (segs : List Seg) (nv : JVal) :
+    replaceAll root segs nv = assignAll nv root (replacePaths root segs) := by
+  simp only [replaceAll, assignAll, replacePaths, List.foldl_map]
+
+theorem mem_replacePaths {root : JVal} {segs : List Seg} {p : Path} :
+    p ∈ replacePaths root segs ↔ p ∈ (query root segs).map (·.1) := by
+  simp only [replacePaths, applyOpts, Bool.false_eq_true, if_false, if_true, List.map_reverse, List.mem_reverse]
+  constructor
+  · intro h
+    obtain ⟨nd, hnd, e⟩ := List.mem_map.mp h
+    exact List.mem_map.mpr ⟨nd, (sortNodes_perm _).subset ((uniqAdj_sublist _).subset hnd), e⟩
+  · intro h
+    apply uniqAdj_keeps_paths
+    obtain ⟨nd, hnd, e⟩ := List.mem_map.mp h
+    exact List.mem_map.mpr ⟨nd, (sortNodes_perm _).mem_iff.mpr hnd, e⟩
+
+/-- **Nothing else changes.** A node whose path diverges from every selected path is exactly as it was. -/
+theorem replace_touches_nothing_else (root : JVal) (segs : List Seg) (nv : JVal) (q : Path)
+    (h : ∀ nd ∈ query root segs, Diverge nd.1 q) :
+    resolve (replaceAll root segs nv) q = resolve root q := by
+  rw [replaceAll_eq]
+  apply assignAll_diverge
+  intro p hp
+  obtain ⟨nd, hnd, e⟩ := List.mem_map.mp (mem_replacePaths.mp hp)
+  exact e ▸ h nd hnd
+
+theorem replacePaths_strictly_descending (root : JVal) (segs : List Seg) :
+    (replacePaths root segs).Pairwise (fun a b => pathLt b a = true) := by
+  simp only [replacePaths, applyOpts, Bool.false_eq_true, if_false, if_true, List.map_reverse]
+  rw [List.pairwise_reverse]
+  have hs := sortNodes_sorted (query root segs)
+  have h1 : ((uniqAdj (sortNodes (query root segs))).map (·.1)).Pairwise (fun a b => pathLe a b = true) :=
+    List.pairwise_map.mpr (hs.sublist (uniqAdj_sublist _))
+  have h2 : ((uniqAdj (sortNodes (query root segs))).map (·.1)).Pairwise (· ≠ ·) := uniqAdj_nodup _ hs
+  refine (h1.and h2).imp ?_
+  intro a b ⟨hle, hne⟩
+  rcases pathLt_trichotomy a b with h | h | h
+  · exact h
+  · exact absurd h hne
+  · simp [pathLe, h] at hle
+
+/-- **Every selected node is assigned.** A selected node with no selected proper ancestor holds the new value afterwards
+    (a selected node below another selected node is replaced together with that ancestor). -/
+theorem replace_assigns_selected (root : JVal) (hu : UK root) (segs : List Seg) (nv : JVal) (nd : Node)
+    (hnd : nd ∈ query root segs)
+    (houter : ∀ nd' ∈ query root segs, IsPrefix nd'.1 nd.1 → nd'.1 = nd.1) :
+    resolve (replaceAll root segs nv) nd.1 = some nv := by
+  rw [replaceAll_eq]
+  have hp : nd.1 ∈ replacePaths root segs := mem_replacePaths.mpr (List.mem_map.mpr ⟨nd, hnd, rfl⟩)
+  obtain ⟨pre, post, e⟩ := List.append_of_mem hp
+  have hdesc := replacePaths_strictly_descending root segs
+  rw [e] at hdesc ⊢
+  have hres := path_addresses_value root hu segs nd hnd
+  rw [List.pairwise_append] at hdesc
+  obtain ⟨_, hpost, hcross⟩ := hdesc
+  apply assignAll_hits nv nd.1 pre post root nd.2 hres
+  · intro q hq
+    exact not_prefix_of_lt (hcross q hq nd.1 (by simp))
+  · intro q hq
+    have hlt : pathLt q nd.1 = true := (List.pairwise_cons.mp hpost).1 q hq
+    rcases diverge_or_prefix_of_lt hlt with h | h
+    · have hq' : q ∈ replacePaths root segs := by rw [e]; simp [hq]
+      obtain ⟨nd', hnd', e'⟩ := List.mem_map.mp (mem_replacePaths.mp hq')
+      have := houter nd' hnd' (e' ▸ h)
+      rw [e'] at this
+      rw [this, pathLt_irrefl] at hlt
+      exact absurd hlt (by simp)
+    · exact h
+
+/-! ### non-vacuity and executable sanity -/
+
+def doc : JVal := .obj [([97], .arr [.int 1, .int 2, .int 3, .int 4]), ([98], .obj [([120], .int 5)])]
+
+example : UK doc := by simp [doc, UK, UKList, UKMembers, Assoc.keys]
+example : (query doc [.child [.name [97]], .child [.slice { start := some 1, stop := none, step := 2 }]]).map (·.2) = [.int 2, .int 4] := by
+  rfl
+example : sliceIdx { start := none, stop := none, step := -2 } 5 = [4, 2, 0] := by decide
+example : sliceIdx { start := some (-100), stop := some 100, step := 9223372036854775807 } 3 = [0] := by decide
+
+end C12
+end Props
+end JV
